@@ -4269,6 +4269,15 @@ func (l *Lowerer) lowerAssign(assign *parser.AssignStmt, target *[]ir.Statement)
 	if err != nil {
 		return err
 	}
+	// In `a op= f(&a)` the old value of a is read before the call runs (WGSL:
+	// a op= e is *p = *p op (e) with p = &a). Loading first moves the Load in
+	// front of every expression of the right-hand side, so it is only done when
+	// the right-hand side calls a function of the module.
+	var earlyLoad *ir.ExpressionHandle
+	if assign.Op != parser.TokenEqual && l.astCallsUserFunction(assign.Right) {
+		h := l.applyLoadRule(pointer)
+		earlyLoad = &h
+	}
 	value, err := l.lowerExpression(assign.Right, target)
 	if err != nil {
 		return err
@@ -4289,7 +4298,12 @@ func (l *Lowerer) lowerAssign(assign *parser.AssignStmt, target *[]ir.Statement)
 		// Apply load rule to get the current value from the pointer.
 		// Must happen BEFORE Splat to match Rust expression ordering:
 		// concretize → Load → Splat → Binary
-		loaded := l.applyLoadRule(pointer)
+		var loaded ir.ExpressionHandle
+		if earlyLoad != nil {
+			loaded = *earlyLoad
+		} else {
+			loaded = l.applyLoadRule(pointer)
+		}
 		// Splat scalar RHS to match vector LHS (e.g., a += 1.0 where a: vec2<f32>).
 		value = l.splatScalarToMatchPointer(pointer, value)
 		value = l.addExpression(ir.Expression{
@@ -4310,6 +4324,38 @@ func (l *Lowerer) lowerAssign(assign *parser.AssignStmt, target *[]ir.Statement)
 		Kind: ir.StmtStore{Pointer: pointer, Value: value},
 	})
 	return nil
+}
+
+// astCallsUserFunction reports whether e contains a call of a function declared in the module.
+func (l *Lowerer) astCallsUserFunction(e parser.Expr) bool {
+	switch x := e.(type) {
+	case *parser.CallExpr:
+		if _, ok := l.functions[x.Func.Name]; ok {
+			return true
+		}
+		for _, a := range x.Args {
+			if l.astCallsUserFunction(a) {
+				return true
+			}
+		}
+	case *parser.BinaryExpr:
+		return l.astCallsUserFunction(x.Left) || l.astCallsUserFunction(x.Right)
+	case *parser.UnaryExpr:
+		return l.astCallsUserFunction(x.Operand)
+	case *parser.IndexExpr:
+		return l.astCallsUserFunction(x.Expr) || l.astCallsUserFunction(x.Index)
+	case *parser.MemberExpr:
+		return l.astCallsUserFunction(x.Expr)
+	case *parser.ConstructExpr:
+		for _, a := range x.Args {
+			if l.astCallsUserFunction(a) {
+				return true
+			}
+		}
+	case *parser.BitcastExpr:
+		return l.astCallsUserFunction(x.Expr)
+	}
+	return false
 }
 
 // lowerIf converts an if statement to IR.
